@@ -179,3 +179,41 @@ def call_name(c: ast.Call) -> str:
 
 def all_package_functions(index: Index, exclude_modules=("_wsdump",)) -> List[str]:
     return [q for q, f in index.functions.items() if f.module not in exclude_modules]
+
+
+def origins(out: Outcome, term: Value, stop: Callable[[Value], bool] = None) -> List[Value]:
+    """Value flow through opaque calls: the leaf terms (symbols, constants) a term is computed from,
+    following results of recorded external calls back to their arguments and receivers."""
+    by_ret = {e.ret.key(): e for e in out.effects if e.ret is not None}
+    seen, leaves, stack = set(), [], [term]
+    while stack:
+        t = stack.pop()
+        if not isinstance(t, Value) or t.key() in seen:
+            continue
+        seen.add(t.key())
+        if stop is not None and stop(t):
+            leaves.append(t)
+            continue
+        e = by_ret.get(t.key())
+        if e is not None:
+            stack.extend(e.args)
+            stack.extend(v for k, v in e.kwargs.items())
+            continue
+        if isinstance(t, App):
+            stack.extend(a for a in t.args if isinstance(a, Value))
+        elif isinstance(t, Tup):
+            stack.extend(t.items)
+        elif isinstance(t, Ref):
+            c = out.run.heap.get(t.addr)
+            if isinstance(c, HList):
+                stack.extend(c.items)
+            elif isinstance(c, HDict):
+                stack.extend(c.items.values())
+            leaves.append(t)
+        else:
+            leaves.append(t)
+    return leaves
+
+
+def flows_from(out: Outcome, term: Value, source: Value) -> bool:
+    return any(l.key() == source.key() for l in origins(out, term))
